@@ -19,7 +19,9 @@ import Frp.Model.Str
 namespace Frp
 namespace Release
 
-inductive Tbl | http | https | tcpmux | visitor | nathole
+/-- `tcp` / `udp`: an explicitly requested port of ports.Manager seen as an exclusive key (used by
+    Frp/Model/RegSteps.lean; the full port manager is Frp/Model/Ports.lean) -/
+inductive Tbl | http | https | tcpmux | visitor | nathole | tcp | udp
 deriving DecidableEq, Repr
 
 structure Key where
